@@ -80,7 +80,7 @@ func (g G) entryName(style int, long bool) string {
 		// legal in a tree object, far beyond any buffer: the path that
 		// `git rev-list --objects` prints for it exceeds 64 KiB
 		// (lengths around multiples of the 4 KiB read buffers and around 64 KiB)
-		return strings.Repeat("G", g.PickInt([]int{4055, 4056, 4057, 8150, 8151, 8152, 8193, 12288, 20000, 65494, 65495, 65496, 70000, 140000}, "giantlen"))
+		return strings.Repeat("G", g.PickInt([]int{4053, 4054, 4055, 4056, 4057, 8149, 8150, 8151, 8152, 8193, 12246, 12288, 16342, 20000, 65494, 65495, 65496, 70000, 140000}, "giantlen"))
 	}
 	if long && g.Chance(1, 12, "longname") {
 		n := g.Int(100, 400, "longlen")
